@@ -23,6 +23,8 @@ type RangeLoop struct {
 	next *RangeLoop
 	c    uint
 	w    io.Writer
+	// Key buffer. Every loop in the nest needs own one, otherwise nested loop overwrites the key of the parent.
+	buf []byte
 }
 
 // NewRangeLoop makes new RL.
